@@ -195,6 +195,8 @@ def install(rec):
 
     def pre_gs(self, G, inds_upper, inds_lower, contract=False, dagger=False,
                transpose=False, **kw):
+        if "absorb" in kw and kw["absorb"] is None:
+            return None   # singular values handed out through info (simple update)
         snap = snapshot(self)
         snap["iu"], snap["il"] = tuple(inds_upper), tuple(inds_lower)
         return snap
